@@ -42,6 +42,8 @@ def mutants(repo):
                 in_test = True  # crc.rs keeps its unit tests at the end of the file
             if re.match(r"^(pub )?mod \w+;", s) or len(re.findall(r"0x[0-9a-fA-F]{8}", s)) >= 4:
                 continue  # module declarations; rows of the CRC table (each pinned by the repository's tests)
+            if s.startswith("/*") or s.startswith("*"):
+                continue  # block comments
             if in_test or not s or s.startswith("//") or s.startswith("#[") or s.startswith("use ") or s.startswith("pub use "):
                 continue
             code = code_part(line)
